@@ -23,6 +23,7 @@ DECIDES = (
     "guards dominate the bodies of grade and backport (C12.DELETE-SKIP)."
     ' clear() also empties nothing that assemble() does not fill (deleted set, merged pairs) and resets whatever state assemble() assigns on the mesh (part of C12.CLEAR-COMPLETE); coordinate setters (Face.update) store private copies, so operations sharing a vertex do not share storage after backport (C12.BACKPORT-OWNS-POINTS).'
     ' backport() is evaluated over a depot of multi-operation entities, so a pairing computed per entity instead of per operation is reported (part of C12.BACKPORT-MAP).'
+    " backport() pairs every block with the operation it was assembled from, for deletes before or after that assembly, on a state produced by running assemble() abstractly (C12.BACKPORT-MAP); patches without faces are not written (C12.EMPTY-PATCH); no relative closeness test in the round trip (C12.EXACT-MOVES); copy_grading leaves the neighbour's chops untouched (C12.NEIGHBOUR-UNTOUCHED); containers of the mesh itself that assemble() fills are emptied by clear() (part of C12.CLEAR-COMPLETE)."
 )
 NOT_DECIDED = "equality of the written files over arbitrary call histories."
 ASSUMPTIONS = ["GeometryList.add is a dict merge and therefore idempotent under re-assembly (stated exception)"]
